@@ -14,8 +14,8 @@
 using namespace gtry;
 
 // ------------------------------------------------------------------ AST
-struct Ex { std::string op; int a = 0, b = 0; std::string bits; std::vector<Ex> kids; };
-struct Sel { std::string kind; int a = 0, b = 0; Ex idx; };
+struct Ex { std::string op; int a = 0, b = 0; std::string bits; std::vector<Ex> kids; std::string spell; int pw = 0; };
+struct Sel { std::string kind; int a = 0, b = 0; Ex idx; std::string spell; int pw = 0; };
 struct St;
 struct Br { int type = 0; /* 0 IF, 1 ELSEIF, 2 ELSE, 3 ELSE IF (with a space) */ Ex c; std::vector<St> body; };
 struct St { char kind = 0; int x = 0; bool isBit = false; int w = 0; int tmp = 0; Ex e; std::vector<Sel> path; std::vector<Br> brs; };
@@ -37,6 +37,10 @@ static Ex pExpr(const Toks &t, size_t &i)
 	else if (e.op == "and" || e.op == "or" || e.op == "xor" || e.op == "add" || e.op == "eq") { e.kids.push_back(pExpr(t, i)); e.kids.push_back(pExpr(t, i)); }
 	else if (e.op == "sl") { e.kids.push_back(pExpr(t, i)); e.a = atoi(t.at(i++).c_str()); e.b = atoi(t.at(i++).c_str()); }
 	else if (e.op == "bit") { e.kids.push_back(pExpr(t, i)); e.a = atoi(t.at(i++).c_str()); }
+	else if (e.op == "slx") { e.op = "sl"; e.spell = t.at(i++); e.pw = atoi(t.at(i++).c_str()); e.kids.push_back(pExpr(t, i)); e.a = atoi(t.at(i++).c_str()); e.b = atoi(t.at(i++).c_str()); }
+	else if (e.op == "bitx") { e.op = "bit"; e.spell = t.at(i++); e.pw = atoi(t.at(i++).c_str()); e.kids.push_back(pExpr(t, i)); e.a = atoi(t.at(i++).c_str()); }
+	else if (e.op == "dpartx") { e.op = "dpart"; e.spell = t.at(i++); e.a = atoi(t.at(i++).c_str()); e.b = atoi(t.at(i++).c_str()); e.kids.push_back(pExpr(t, i)); e.kids.push_back(pExpr(t, i)); }
+	else if (e.op == "muxw") { e.a = atoi(t.at(i++).c_str()); e.kids.push_back(pExpr(t, i)); e.kids.push_back(pExpr(t, i)); }
 	else if (e.op == "dsl" || e.op == "dbit" || e.op == "dpart") { e.a = atoi(t.at(i++).c_str()); e.b = atoi(t.at(i++).c_str()); e.kids.push_back(pExpr(t, i)); e.kids.push_back(pExpr(t, i)); }
 	else die("expr token " + e.op);
 	return e;
@@ -47,6 +51,9 @@ static Sel pSel(const Toks &t, size_t &i)
 	Sel s; s.kind = t.at(i++);
 	if (s.kind == "st") { s.a = atoi(t.at(i++).c_str()); s.b = atoi(t.at(i++).c_str()); }
 	else if (s.kind == "sb") { s.a = atoi(t.at(i++).c_str()); }
+	else if (s.kind == "sx") { s.kind = "st"; s.spell = t.at(i++); s.pw = atoi(t.at(i++).c_str()); s.a = atoi(t.at(i++).c_str()); s.b = atoi(t.at(i++).c_str()); }
+	else if (s.kind == "bx") { s.kind = "sb"; s.spell = t.at(i++); s.pw = atoi(t.at(i++).c_str()); s.a = atoi(t.at(i++).c_str()); }
+	else if (s.kind == "dpx") { s.kind = "dp"; s.spell = t.at(i++); s.a = atoi(t.at(i++).c_str()); s.b = atoi(t.at(i++).c_str()); s.idx = pExpr(t, i); }
 	else if (s.kind == "ds" || s.kind == "db" || s.kind == "dp") { s.a = atoi(t.at(i++).c_str()); s.b = atoi(t.at(i++).c_str()); s.idx = pExpr(t, i); }
 	else die("sel " + s.kind);
 	return s;
@@ -92,6 +99,59 @@ struct Val { std::shared_ptr<Bit> b; std::shared_ptr<UInt> u; };
 struct Var { int id; std::unique_ptr<Bit> b; std::unique_ptr<UInt> u; };
 struct ReadOut { int tmp; bool isBit; std::optional<OutputPin> pb; std::optional<OutputPins> pu; std::optional<OutputPin> guard; };
 
+// ---- every spelling the BaseBitVector / SliceableBitVector API offers for a static sub-range, a single bit and a
+// dynamic part; all spellings of one (offset, width) / bit index must behave identically, on vectors and on aliases
+static UInt &applyStatic(UInt &v, const std::string &sp, int off, int w)
+{
+	int pw = (int)v.size();
+	UInt *r = nullptr;
+	if (sp.empty() || sp == "call") r = &v((size_t)off, BitWidth((uint64_t)w));
+	else if (sp == "sel_slice") r = &v(Selection::Slice((size_t)off, (size_t)w));
+	else if (sp == "sel_range") r = &v(Selection::Range(off, off + w));
+	else if (sp == "sel_range_sz") r = &v(Selection::Range((size_t)off, (size_t)(off + w)));
+	else if (sp == "sel_rangeincl") r = &v(Selection::RangeIncl(off, off + w - 1));
+	else if (sp == "sel_from") r = &v(Selection::From(off));
+	else if (sp == "sel_fromneg") r = &v(Selection::From(-w));
+	else if (sp == "sel_all") r = &v(Selection::All());
+	else if (sp == "sel_symbol") r = &v(Selection::Symbol(off / w, BitWidth((uint64_t)w)));
+	else if (sp == "upper") r = &v.upper(BitWidth((uint64_t)w));
+	else if (sp == "upper_reduce") r = &v.upper(BitReduce{(uint64_t)off});
+	else if (sp == "lower") r = &v.lower(BitWidth((uint64_t)w));
+	else if (sp == "lower_reduce") r = &v.lower(BitReduce{(uint64_t)(pw - w)});
+	else if (sp == "call_reduce") r = &v((size_t)off, BitReduce{(uint64_t)(pw - w)});
+	else if (sp == "word") r = &v.word((size_t)(off / w), BitWidth((uint64_t)w));
+	else if (sp == "part") r = &v.part((size_t)(pw / w), (size_t)(off / w));
+	else if (sp == "parts_idx") r = &v.parts((size_t)(pw / w))[(size_t)(off / w)];
+	else if (sp == "parts_at") r = &v.parts((size_t)(pw / w)).at((size_t)(off / w));
+	else die("static slice spelling " + sp);
+	if ((int)r->size() != w) die("spelling " + sp + " produced width " + std::to_string(r->size()) + " instead of " + std::to_string(w));
+	return *r;
+}
+
+static Bit &applyBit(UInt &v, const std::string &sp, int i)
+{
+	int pw = (int)v.size();
+	if (sp.empty() || sp == "index") return v[(size_t)i];
+	if (sp == "index_int") return v[(int)i];
+	if (sp == "index_neg") return v[(int)(i - pw)];
+	if (sp == "at") return v.at((size_t)i);
+	if (sp == "lsb") { if (i != 0) die("lsb spelling"); return v.lsb(); }
+	if (sp == "msb") { if (i != pw - 1) die("msb spelling"); return v.msb(); }
+	if (sp == "front") { if (i != 0) die("front spelling"); return v.front(); }
+	if (sp == "back") { if (i != pw - 1) die("back spelling"); return v.back(); }
+	if (sp == "iter") return *(v.begin() + i);
+	if (sp == "riter") return *(v.rbegin() + (pw - 1 - i));
+	die("bit spelling " + sp);
+}
+
+static UInt &applyDynPart(UInt &v, const std::string &sp, int parts, const UInt &idx)
+{
+	if (sp.empty() || sp == "part") return v.part((size_t)parts, idx);
+	if (sp == "parts_idx") return v.parts((size_t)parts)[idx];
+	if (sp == "parts_at") return v.parts((size_t)parts).at(idx);
+	die("dynamic part spelling " + sp);
+}
+
 struct Builder {
 	std::vector<std::unique_ptr<Bit>> pinBits; std::vector<std::unique_ptr<UInt>> pinVecs;
 	std::vector<std::optional<InputPin>> inB; std::vector<std::optional<InputPins>> inU;
@@ -100,15 +160,18 @@ struct Builder {
 
 	Var *find(int id) { for (size_t i = vars.size(); i-- > 0;) if (vars[i].id == id) return &vars[i]; return nullptr; }
 
-	// A bare variable reference used as the base or the index of a dynamic access is the C++ variable
-	// itself (v[i], not v[copy of i]): the alias constructor must take the index's value at this program
-	// point even if the variable is assigned again later.
-	UInt *vecOperand(const Ex &e, Val &holder)
+	// The object an accessor is applied to: a bare variable reference is the C++ variable itself, a slice form of
+	// such an object is the ALIAS the API hands out (x(4,4_b).lsb() works on the alias, not on a copy), anything
+	// else is a temporary kept alive in [keep].  Indices of dynamic accesses are taken the same way.
+	UInt *vecRef(const Ex &e, std::vector<Val> &keep)
 	{
 		if (e.op == "s") { Var *v = find(e.a); if (v && v->u) return v->u.get(); }
-		holder = eval(e);
-		if (!holder.u) die("dynamic access needs UInt operands");
-		return holder.u.get();
+		if (e.op == "sl") { UInt *b = vecRef(e.kids[0], keep); return &applyStatic(*b, e.spell, e.a, e.b); }
+		if (e.op == "dsl") { UInt *b = vecRef(e.kids[0], keep); UInt *i = vecRef(e.kids[1], keep); return &(*b)(*i, BitWidth((uint64_t)e.b)); }
+		if (e.op == "dpart") { UInt *b = vecRef(e.kids[0], keep); UInt *i = vecRef(e.kids[1], keep); return &applyDynPart(*b, e.spell, e.a, *i); }
+		keep.push_back(eval(e));
+		if (!keep.back().u) die("accessor needs a UInt operand");
+		return keep.back().u.get();
 	}
 
 	Val eval(const Ex &e)
@@ -142,21 +205,24 @@ struct Builder {
 		} else if (e.op == "eq") {
 			Val a = eval(e.kids[0]); Val b = eval(e.kids[1]);
 			if (a.b) r.b.reset(new Bit(*a.b == *b.b)); else r.b.reset(new Bit(*a.u == *b.u));
-		} else if (e.op == "sl") {
-			Val a = eval(e.kids[0]);
-			UInt &al = (*a.u)((size_t)e.a, BitWidth((uint64_t)e.b));
-			r.u.reset(new UInt(al));
+		} else if (e.op == "sl" || e.op == "dsl" || e.op == "dpart") {
+			std::vector<Val> keep;
+			UInt *al = vecRef(e, keep);
+			r.u.reset(new UInt(*al));
 		} else if (e.op == "bit") {
-			Val a = eval(e.kids[0]);
-			Bit &al = (*a.u)[(size_t)e.a];
+			std::vector<Val> keep;
+			UInt *b = vecRef(e.kids[0], keep);
+			Bit &al = applyBit(*b, e.spell, e.a);
 			r.b.reset(new Bit(al));
-		} else if (e.op == "dsl" || e.op == "dbit" || e.op == "dpart") {
-			Val ha, hi;
-			UInt *a = vecOperand(e.kids[0], ha);
-			UInt *i = vecOperand(e.kids[1], hi);
-			if (e.op == "dsl") { UInt &al = (*a)(*i, BitWidth((uint64_t)e.b)); r.u.reset(new UInt(al)); }
-			else if (e.op == "dbit") { Bit &al = (*a)[*i]; r.b.reset(new Bit(al)); }
-			else { UInt &al = a->part((size_t)e.a, *i); r.u.reset(new UInt(al)); }
+		} else if (e.op == "dbit") {
+			std::vector<Val> keep;
+			UInt *b = vecRef(e.kids[0], keep); UInt *i = vecRef(e.kids[1], keep);
+			Bit &al = (*b)[*i];
+			r.b.reset(new Bit(al));
+		} else if (e.op == "muxw") {
+			// a library helper that uses IF internally (SignalMiscOp.cpp muxWord)
+			Val sel = eval(e.kids[0]); Val arr = eval(e.kids[1]);
+			r.u.reset(new UInt(muxWord(*sel.b, *arr.u)));
 		} else die("eval " + e.op);
 		return r;
 	}
@@ -191,19 +257,19 @@ struct Builder {
 		} break;
 		case 'A': {
 			Val rhs = eval(s.e);
-			std::vector<Val> idxHold(s.path.size());
+			std::vector<Val> keep;
 			std::vector<UInt*> idx(s.path.size(), nullptr);
-			for (size_t k = 0; k < s.path.size(); k++) if (s.path[k].kind[0] == 'd') idx[k] = vecOperand(s.path[k].idx, idxHold[k]);
+			for (size_t k = 0; k < s.path.size(); k++) if (s.path[k].kind[0] == 'd') idx[k] = vecRef(s.path[k].idx, keep);
 			Var *v = find(s.x); if (!v) die("unknown signal in assignment");
 			if (v->b) { const Bit &rv = *rhs.b; *v->b = rv; break; }
 			UInt *cur = v->u.get(); Bit *bit = nullptr;
 			for (size_t k = 0; k < s.path.size(); k++) {
 				const Sel &p = s.path[k];
-				if (p.kind == "st") cur = &(*cur)((size_t)p.a, BitWidth((uint64_t)p.b));
-				else if (p.kind == "sb") bit = &(*cur)[(size_t)p.a];
+				if (p.kind == "st") cur = &applyStatic(*cur, p.spell, p.a, p.b);
+				else if (p.kind == "sb") bit = &applyBit(*cur, p.spell, p.a);
 				else if (p.kind == "ds") cur = &(*cur)(*idx[k], BitWidth((uint64_t)p.b));
 				else if (p.kind == "db") bit = &(*cur)[*idx[k]];
-				else if (p.kind == "dp") cur = &cur->part((size_t)p.a, *idx[k]);
+				else if (p.kind == "dp") cur = &applyDynPart(*cur, p.spell, p.a, *idx[k]);
 			}
 			if (bit) { const Bit &rv = *rhs.b; *bit = rv; } else { const UInt &rv = *rhs.u; *cur = rv; }
 		} break;
@@ -353,6 +419,7 @@ struct Oracle {
 		if (e.op == "eq") { OV a = ev(e.kids[0]), b = ev(e.kids[1]); return OV{a.v == b.v ? 1ull : 0ull, 1}; }
 		if (e.op == "sl") { OV a = ev(e.kids[0]); if (e.a + e.b > a.w) throw Undef(); return OV{(a.v >> e.a) & mask(e.b), e.b}; }
 		if (e.op == "bit") { OV a = ev(e.kids[0]); if (e.a >= a.w) throw Undef(); return OV{(a.v >> e.a) & 1, 1}; }
+		if (e.op == "muxw") { OV sel = ev(e.kids[0]), a = ev(e.kids[1]); int h = a.w / 2; return OV{(sel.v & 1) ? (a.v >> h) & mask(h) : a.v & mask(h), h}; }
 		if (e.op == "dsl" || e.op == "dbit" || e.op == "dpart") {
 			OV a = ev(e.kids[0]), i = ev(e.kids[1]);
 			uint64_t maxi; int mul, w;
